@@ -144,15 +144,57 @@ def rule_b(ctx):
     raise AnalysisError(f'only {n} generator state fields found')
   # replay updates as unconditionally as feedback does
   ded = 'pyglove.core.geno.deduping.Deduping'
-  for meth in ('_feedback', '_replay'):
-    m = idx.func(f'{ded}.{meth}')
-    g = C.cfg_of(m.node)
-    pred = lambda k: any(A.call_name(c) == 'self._add_dna_to_cache' for c in k.calls())
-    w = g.can_skip(g.entry, pred)
-    ctx.ob('C15.b', m.fq + '#cache', w is None,
-           f'{meth} records the DNA in the de-duplication memory on every path', m.loc,
-           f'a path returns without _add_dna_to_cache: {w}; the recovered memory differs from the '
-           f'live one')
+  pred = lambda k: any(A.call_name(c) == 'self._add_dna_to_cache' for c in k.calls())
+  m = idx.func(f'{ded}._feedback')
+  g = C.cfg_of(m.node)
+  w = g.can_skip(g.entry, pred)
+  ctx.ob('C15.b', m.fq + '#cache', w is None,
+         '_feedback records the DNA in the de-duplication memory on every path', m.loc,
+         f'a path returns without _add_dna_to_cache: {w}; the recovered memory differs from the live one')
+  # replay mirrors the live run: a DNA enters the memory when it is proposed if the
+  # wrapped generator takes no feedback (_propose: `if not self.needs_feedback`), else
+  # when its reward arrives (_feedback).  So in _replay: (a) with a reward, always;
+  # (b) without feedback-driven inner generator, always; (c) in flight under a
+  # feedback-driven generator, never.
+  m = idx.func(f'{ded}._replay')
+  g = C.cfg_of(m.node)
+  rv = [p for p in A.param_names(m.node) if p not in ('self',)][-1]
+  def edges(assume_reward, assume_needs_feedback):
+    out = set()
+    for k in g.nodes:
+      if k.kind != 'test':
+        continue
+      t = A.unparse(k.ast)
+      truth = None
+      if t == f'{rv} is not None':
+        truth = assume_reward
+      elif t == f'{rv} is None':
+        truth = None if assume_reward is None else (not assume_reward)
+      elif t in ('self.needs_feedback', 'self.generator.needs_feedback'):
+        truth = assume_needs_feedback
+      if truth is None:
+        continue
+      out |= {(k.id, m2.id, l) for m2, l in k.succ if l == ('false' if truth else 'true')}
+    return out
+  wa = g.can_skip(g.entry, pred) if False else None
+  def skip_under(blocked):
+    blocked_nodes = {k.id for k in g.nodes if k.ast is not None and pred(k)}
+    seen, parent = g.reach(g.entry, blocked_nodes=blocked_nodes, blocked_edges=blocked, follow_exc=False)
+    return g.witness_str(parent, g.exit) if g.exit.id in seen else None
+  def reach_add(blocked):
+    seen, _ = g.reach(g.entry, blocked_edges=blocked, follow_exc=False)
+    return any(k.id in seen for k in g.nodes if k.ast is not None and pred(k))
+  wa = skip_under(edges(True, None))
+  wb = skip_under(edges(None, False))
+  ctx.ob('C15.b', m.fq + '#cache', wa is None and wb is None,
+         '_replay records a fed-back DNA - and, under a generator that takes no feedback, every DNA - in the '
+         'de-duplication memory on every path', m.loc,
+         f'a path returns without _add_dna_to_cache: {wa or wb}; the recovered memory differs from the live one')
+  ctx.ob('C15.b', m.fq + '#cache-in-flight', not reach_add(edges(False, True)),
+         'a proposal whose reward never arrived is not put into the de-duplication memory of a feedback-driven '
+         'generator (the live run caches it when the reward arrives)', m.loc,
+         '_replay caches in-flight proposals with reward None: the recovered memory has entries the live one lacks, '
+         'and auto_reward_fn is later called with [None]')
   ev = idx.func('pyglove.ext.evolution.base.Evolution.recover')
   g = C.cfg_of(ev.node)
   _, RV = _history_vars(ev.node)
